@@ -42,6 +42,7 @@ type Job struct {
 	Cfg     Cfg
 	Batches []Batch
 	Points  []SPt
+	Base    string // magnitude class of every batch of the job ("" = ordinary values)
 }
 
 // ---------- configurations (mirror of AggregatesMC.MCDomCfgs, plus the tags argument of top/bottom)
@@ -227,6 +228,7 @@ func (w *worker) run(j *Job) {
 	reset := j.Cfg.Enc()
 	reset["mode"] = j.Mode
 	reset["phase"] = j.Phase
+	reset["base"] = j.Base
 	var res *rt.PipeResult
 	var err error
 	var evs []rt.M
@@ -247,7 +249,7 @@ func (w *worker) run(j *Job) {
 		if err == nil {
 			for i, it := range res.BySink("in") {
 				if i < len(evs) && it.Batch != nil {
-					if b, derr := DecodeInBatch(it.Batch, ""); derr == nil {
+					if b, derr := DecodeInBatch(it.Batch, j.Base); derr == nil {
 						evs[i]["seen"] = EncInBatch(b)["pts"]
 					}
 				}
@@ -312,11 +314,23 @@ func (w *worker) run(j *Job) {
 		w.t.Event(ev, e)
 	}
 	outs := []any{}
-	for _, it := range res.BySink("out") {
-		outs = append(outs, EncOut(it, sq))
+	drain := rt.M{"stop": short(res.StopErr), "nerr": len(res.Errors)}
+	if j.Base == "" {
+		for _, it := range res.BySink("out") {
+			outs = append(outs, EncOut(it, sq))
+		}
+	} else {
+		mags := []any{}
+		for _, it := range res.BySink("out") {
+			o, m := EncOutMag(it, j.Cfg.AsName(), Bases[j.Base], j.Cfg.Fn == "stddev")
+			outs = append(outs, o)
+			mags = append(mags, m)
+		}
+		drain["mag"] = mags
 	}
 	w.msgs += len(outs)
-	w.t.Event("Drain", rt.M{"outs": outs, "stop": short(res.StopErr), "nerr": len(res.Errors)})
+	drain["outs"] = outs
+	w.t.Event("Drain", drain)
 	// distinct non-trivial cases: (configuration, input batch/run contents) with at least 2 points
 	switch j.Mode {
 	case "batch":
@@ -494,6 +508,109 @@ func genJobs(r *rt.Run) []*Job {
 		}
 	}
 
+	// F. tags: batches handed to the node directly (batch collectors = recorded / hand-written batches, UDF output)
+	// whose points do NOT simply repeat the group tags: every combination of tag shapes
+	//   f group tags + own h | h own tag only | e no tags | m two own tags, no group tag | g group tags only | F group + h + r
+	// over batches of size 1..2 (quick: + a sample of size 3; thorough: all of size 3), in a one-tag group and in the
+	// two-tag group dd (d=x,g=dd), for every function that emits selected points (and three controls).
+	shapes := "fhemgF"
+	var shapeSeqs []string
+	var rec func(cur string)
+	rec = func(cur string) {
+		if len(cur) > 0 && (len(cur) < 3 || r.Thorough() || r.Rand.Intn(6) == 0) {
+			shapeSeqs = append(shapeSeqs, cur)
+		}
+		if len(cur) == 3 {
+			return
+		}
+		for _, c := range shapes {
+			rec(cur + string(c))
+		}
+	}
+	rec("")
+	tagCfgs := []Cfg{{Fn: "top", Arg: 2}, {Fn: "top", Arg: 5, UPT: true}, {Fn: "top", Arg: 2, Tags: true}, {Fn: "bottom", Arg: 2},
+		{Fn: "bottom", Arg: 5, Tags: true, UPT: true}, {Fn: "first"}, {Fn: "first", UPT: true}, {Fn: "last", UPT: true}, {Fn: "min"},
+		{Fn: "min", UPT: true}, {Fn: "max", UPT: true, As: "y"}, {Fn: "percentile", Arg: 50}, {Fn: "percentile", Arg: 100, UPT: true},
+		{Fn: "sum"}, {Fn: "distinct"}, {Fn: "cumulativeSum"}}
+	for _, c := range tagCfgs {
+		for gi, g := range []string{"a", "dd"} {
+			var bs []Batch
+			for si, sh := range shapeSeqs {
+				b := Batch{G: g}
+				for i := range sh {
+					// values 3,1,2 / 1,3,2 ...: the selected point moves through the positions
+					b.Pts = append(b.Pts, shapedPt(sh[i], i, []int{3, 1, 2, 1, 3, 2, 2, 3, 1}[(si%3)*3+i]))
+				}
+				bs = append(bs, b)
+			}
+			for _, ch := range chunks(len(bs), per, 0) {
+				j := &Job{Mode: "batch", Phase: "tags", Cfg: c}
+				for k, b := range bs[ch[0]:ch[1]] {
+					b.Tmax = 10 * (k + 1)
+					j.Batches = append(j.Batches, b)
+				}
+				jobs = append(jobs, j)
+			}
+			_ = gi
+		}
+	}
+
+	// G. extreme magnitudes: value = S*B + d, large base B, small d: every sequence d of size 1..3 over {0,1,2}
+	// (thorough: 1..4 over {0,1,2,3}) for every numerically sensitive function, as float and as int, B = 1e9, 1e12,
+	// 2^53 (int only, functions with int64 results only: float64 cannot hold such inputs/results), -4e12; and mixed signs (+B, -B, 0) that cancel for
+	// the summing functions.
+	magFns := []Cfg{{Fn: "stddev"}, {Fn: "mean"}, {Fn: "sum"}, {Fn: "spread"}, {Fn: "movingAverage", Arg: 2}, {Fn: "cumulativeSum"},
+		{Fn: "difference"}, {Fn: "count"}}
+	dl, dv := 3, []int{0, 1, 2}
+	if r.Thorough() {
+		dl, dv = 4, []int{0, 1, 2, 3}
+	}
+	type mclass struct {
+		base, kind string
+		s          int
+	}
+	classes := []mclass{{"1e9", "float", 1}, {"1e9", "int", 1}, {"1e12", "float", 1}, {"1e12", "int", 1}, {"2^53", "int", 1},
+		{"4e12", "float", -1}, {"4e12", "int", -1}}
+	for _, c := range magFns {
+		for _, cl := range classes {
+			if cl.base == "2^53" && (c.Fn == "stddev" || c.Fn == "mean" || c.Fn == "movingAverage") {
+				continue // float64 results around 2^53 have ulp 2: coarser than the residuals; the int64 results must be exact
+			}
+			var bs []Batch
+			for _, ds := range valueSeqs(dv, dl) {
+				if len(ds) == 0 {
+					continue
+				}
+				b := Batch{G: "a", Base: cl.base}
+				for i, d := range ds {
+					b.Pts = append(b.Pts, Pt{T: i + 1, K: cl.kind, V: d, S: cl.s, H: hOf(i + 1), R: "-", I: i + 1})
+				}
+				bs = append(bs, b)
+			}
+			// mixed signs for the summing functions: every sign pattern of size 2..3 over {+1,-1,0}
+			if c.Fn == "sum" || c.Fn == "cumulativeSum" || c.Fn == "difference" {
+				for _, ss := range valueSeqs([]int{1, -1, 0}, 3) {
+					if len(ss) < 2 {
+						continue
+					}
+					b := Batch{G: "a", Base: cl.base}
+					for i, sg := range ss {
+						b.Pts = append(b.Pts, Pt{T: i + 1, K: cl.kind, V: []int{2, 0, 1}[i], S: sg, H: hOf(i + 1), R: "-", I: i + 1})
+					}
+					bs = append(bs, b)
+				}
+			}
+			for _, ch := range chunks(len(bs), per, 0) {
+				j := &Job{Mode: "batch", Phase: "magnitude", Cfg: c, Base: cl.base}
+				for k, b := range bs[ch[0]:ch[1]] {
+					b.Tmax = 10 * (k + 1)
+					j.Batches = append(j.Batches, b)
+				}
+				jobs = append(jobs, j)
+			}
+		}
+	}
+
 	// E. seeded random: wider values, sizes up to 6, unordered and repeated times, mixed kinds, three groups, all options.
 	nRand := 150
 	if r.Thorough() {
@@ -503,6 +620,25 @@ func genJobs(r *rt.Run) []*Job {
 		jobs = append(jobs, randomJob(r.Rand))
 	}
 	return jobs
+}
+
+// shapedPt: the i-th point of a batch with the given tag shape (see phase F).
+func shapedPt(shape byte, i, v int) Pt {
+	p := Pt{T: i + 1, K: "int", V: v, H: "-", R: "-", I: i + 1}
+	switch shape {
+	case 'f':
+		p.H = hOf(i + 1)
+	case 'h':
+		p.H, p.NoG = hOf(i+1), true
+	case 'e':
+		p.NoG = true
+	case 'm':
+		p.H, p.R, p.NoG = hOf(i+1), "z", true
+	case 'g':
+	case 'F':
+		p.H, p.R = hOf(i+1), "z"
+	}
+	return p
 }
 
 // runTime: time of the ri-th run of a stream job: 2,1,4,3,6,5,... (consecutive runs always differ).
@@ -673,7 +809,10 @@ func Run(r *rt.Run) error {
 		"pair (thorough: triple/quadruple) of uniform batches of kind int/float/string/missing field and the empty batch as windows of a de "+
 		"Bruijn sequence, per function; window: seeded random points through the real window node, its output observed; stream: ALL runs of "+
 		"equal-time points of size 1..L with NON-MONOTONIC run times (2,1,4,3,..: every second run older than the one before), int and float "+
-		"groups interleaved, and type changes between runs; random: seeded configurations "+
+		"groups interleaved, and type changes between runs; tags: batches fed directly whose points carry every combination of tag shapes "+
+		"(group tags repeated or not, 0-2 own tags) in a one-tag and a two-tag group, for top/bottom/first/last/min/max/percentile; magnitude: "+
+		"values S*B+d with B in 1e9,1e12,2^53,-4e12 and all small d sequences, float and int, mixed signs that cancel, results split exactly "+
+		"into m*B+r (big rationals) and checked to a fixed ulp tolerance; random: seeded configurations "+
 		"(percentile argument, top/bottom n and tag argument, movingAverage k, elapsed unit, as, usePointTimes) with sizes up to 6, repeated "+
 		"and unordered times, mixed kinds, three groups. Non-trivial = batch/run with at least 2 points; distinct by (configuration, input)", true)
 	return nil
